@@ -106,3 +106,18 @@ Example shape_example_typescript :
   lexical_headers_of LJavaScript code = [mkHeader 9 8 21] /\
   extract_headers LJavaScript code = OK [mkHeader 9 8 21].
 Proof. vm_compute. repeat split; reflexivity. Qed.
+
+(* the repaired TypeScript follow-up (GD26):
+   if ( c ? f ( ) : x ) {          — a call in a ternary in a condition is no header
+   g ( ) : ( a : T ) => U {        — a function type as return type is one
+   h ( ) : ( x {   k ( ) : y ; {   — a group that never closes, a ";" before the brace: none *)
+Example shape_example_typescript_rettype :
+  let code := toks [(0, [105; 102]); (2, [40]); (1, [99]); (3, [63]); (1, [102]); (2, [40]); (2, [41]); (3, s_colon);
+                    (1, [120]); (2, [41]); (2, [123]);
+                    (1, [103]); (2, [40]); (2, [41]); (3, s_colon); (2, [40]); (1, [97]); (3, s_colon); (1, [84]); (2, [41]);
+                    (2, s_arrow); (1, [85]); (2, [123]);
+                    (1, [107]); (2, [40]); (2, [41]); (3, s_colon); (1, [121]); (2, [59]); (2, [123]);
+                    (1, [104]); (2, [40]); (2, [41]); (3, s_colon); (2, [40]); (1, [120]); (2, [123])] in
+  lexical_headers_of LTypeScript code = [mkHeader 11 11 14] /\
+  extract_headers LTypeScript code = OK [mkHeader 11 11 14].
+Proof. vm_compute. split; reflexivity. Qed.
